@@ -304,6 +304,8 @@ def gen_table(rng, L, conforming=True):
                 x = cid * 10 + k if rng.random() < 0.9 else rng.choice([11, 21, 31])
                 if any(p[1] == x for p in params):
                     x = cid * 10 + k
+                while any(p[1] == x for p in params):
+                    x += 100            # cid*10+k can itself be 11 / 21 / 31: two parameters of one class never share a name
                 params.append(("V", x, var, bound))
         sups = []
         cands = [c for c in tab]
